@@ -78,6 +78,191 @@ def loop_target_names(for_node):
     return []
 
 
+_VIEW_CALLS = {"sorted", "reversed", "list", "tuple"}
+
+
+def _view_base(e):
+    """`e` denotes (a re-ordering of) a subsequence of a local list L: L, L[a:b], sorted(L), list(L) ... -> 'L'."""
+    while True:
+        if isinstance(e, ast.Name):
+            return e.id
+        if isinstance(e, ast.Subscript) and isinstance(e.slice, ast.Slice):
+            e = e.value
+            continue
+        if isinstance(e, ast.Call) and isinstance(e.func, ast.Name) and e.func.id in _VIEW_CALLS and len(e.args) == 1 \
+                and not any(isinstance(a_, ast.Starred) for a_ in e.args) and all(k.arg == "key" or k.arg == "reverse"
+                                                                                  for k in e.keywords):
+            e = e.args[0]
+            continue
+        return None
+
+
+def _list_feeds(fn, lname):
+    """Every use of the local name `lname` in fn, classified.  The list may only be born empty, grow by
+    `L.append(X)` statements and be narrowed / re-ordered by `L = <view of L>` or `L = [x for x in <view of L> if c]`;
+    it may be iterated, measured and tested.  Anything else (extend, +=, item stores, escapes into calls, nested
+    functions, returns) makes its contents undecidable here -> AnalysisError.  Returns the append calls."""
+    parent = {}
+    for p in ast.walk(fn.node):
+        for ch in ast.iter_child_nodes(p):
+            parent[id(ch)] = p
+    if lname in fn.params:
+        raise AnalysisError("%s: the list %s is a parameter; cannot tell what it holds" % (short(fn), lname))
+    appends = []
+
+    def is_empty_list(v):
+        return (isinstance(v, ast.List) and not v.elts) or \
+            (isinstance(v, ast.Call) and isinstance(v.func, ast.Name) and v.func.id == "list" and not v.args and not v.keywords)
+
+    def is_self_narrowing(v):
+        if _view_base(v) == lname:
+            return True
+        if isinstance(v, ast.ListComp) and len(v.generators) == 1 and not v.generators[0].is_async:
+            g = v.generators[0]
+            return isinstance(g.target, ast.Name) and isinstance(v.elt, ast.Name) and v.elt.id == g.target.id \
+                and _view_base(g.iter) == lname
+        return False
+
+    def top_of_view(x):
+        # climb through slices / sorted() ... wrapped around the name
+        while True:
+            p = parent.get(id(x))
+            if isinstance(p, ast.Subscript) and p.value is x and isinstance(p.slice, ast.Slice):
+                x = p
+            elif isinstance(p, ast.Call) and isinstance(p.func, ast.Name) and p.func.id in _VIEW_CALLS and len(p.args) == 1 \
+                    and p.args[0] is x:
+                x = p
+            else:
+                return x, p
+
+    for x in ast.walk(fn.node):
+        if not (isinstance(x, ast.Name) and x.id == lname):
+            continue
+        # inside a nested def / lambda: give up
+        q = parent.get(id(x))
+        while q is not None and q is not fn.node:
+            if isinstance(q, (ast.FunctionDef, ast.AsyncFunctionDef, ast.Lambda, ast.ClassDef)):
+                raise AnalysisError("%s: the list %s is used inside a nested function" % (short(fn), lname))
+            q = parent.get(id(q))
+        p = parent.get(id(x))
+        if isinstance(x.ctx, ast.Store):
+            if isinstance(p, ast.Assign) and len(p.targets) == 1 and p.targets[0] is x and \
+                    (is_empty_list(p.value) or is_self_narrowing(p.value)):
+                continue
+            raise AnalysisError("%s: cannot follow what is stored into the list %s at line %s" % (
+                short(fn), lname, getattr(x, "lineno", "?")))
+        if not isinstance(x.ctx, ast.Load):
+            raise AnalysisError("%s: the list %s is deleted" % (short(fn), lname))
+        # L.append(X) as a statement
+        if isinstance(p, ast.Attribute) and p.value is x:
+            c = parent.get(id(p))
+            if p.attr == "append" and isinstance(c, ast.Call) and c.func is p and len(c.args) == 1 and not c.keywords \
+                    and not isinstance(c.args[0], ast.Starred) and isinstance(parent.get(id(c)), ast.Expr):
+                appends.append(c)
+                continue
+            if p.attr in ("index", "count", "copy") and isinstance(c, ast.Call) and c.func is p:
+                continue
+            raise AnalysisError("%s: cannot follow %s.%s" % (short(fn), lname, p.attr))
+        top, tp = top_of_view(x)
+        if isinstance(tp, (ast.For, ast.AsyncFor)) and tp.iter is top:
+            continue
+        if isinstance(tp, ast.comprehension) and tp.iter is top:
+            continue        # reading it in a comprehension (incl. the self-narrowing one)
+        if isinstance(tp, ast.Assign) and tp.value is top and len(tp.targets) == 1 and isinstance(tp.targets[0], ast.Name) \
+                and tp.targets[0].id == lname:
+            continue
+        if isinstance(tp, ast.Call) and isinstance(tp.func, ast.Name) and tp.func.id in ("len", "bool") and top in tp.args:
+            continue
+        if isinstance(tp, (ast.If, ast.While, ast.IfExp)) and tp.test is top:
+            continue
+        if isinstance(tp, ast.UnaryOp) and isinstance(tp.op, ast.Not):
+            continue
+        if isinstance(tp, ast.BoolOp):
+            continue
+        if isinstance(tp, ast.Compare) and all(isinstance(o, (ast.Eq, ast.NotEq, ast.Is, ast.IsNot)) for o in tp.ops):
+            continue
+        raise AnalysisError("%s: the list %s escapes at line %s; cannot tell what it holds" % (
+            short(fn), lname, getattr(x, "lineno", "?")))
+    return appends
+
+
+def carried_sources(fn, node, exprs, depth=3):
+    """Reaching definitions through `L.append((a, b, c))` + `for (x, y, z) in L`.
+
+    For each expression of `exprs` (evaluated at CFG node `node`) that is a plain name bound only by the target of a
+    for-loop over (a view of) a local list, step back to the element expression at the append statement.  Returns the
+    alternatives [[(node_i, expr_i) for each expr], ...] - one alternative per combination of append statements
+    (names unpacked by the same loop head step back to the same append).  Names not bound by a loop stay (node, expr).
+    Shapes that cannot be followed raise AnalysisError (fail closed)."""
+    cfg = fn.cfg()
+    rd = C.reaching_defs(cfg)
+    per = []
+    for e in exprs:
+        hit = None
+        if isinstance(e, ast.Name):
+            defs = rd.get(node.id, {}).get(e.id, frozenset())
+            dn = [cfg.nodes[d] for d in defs if d != C.PARAM_DEF]
+            heads = [d for d in dn if d.kind == "iter"]
+            if heads and (len(heads) != len(defs)):
+                raise AnalysisError("%s: %s is bound by a loop and by something else" % (short(fn), e.id))
+            if heads:
+                if len(heads) != 1:
+                    raise AnalysisError("%s: %s is bound by several loops" % (short(fn), e.id))
+                h = heads[0]
+                tgt = h.ast.target
+                if isinstance(tgt, ast.Name):
+                    k = None
+                elif isinstance(tgt, (ast.Tuple, ast.List)) and all(isinstance(t_, ast.Name) for t_ in tgt.elts):
+                    k = [t_.id for t_ in tgt.elts].index(e.id)
+                else:
+                    raise AnalysisError("%s: cannot follow the loop target that binds %s" % (short(fn), e.id))
+                lname = _view_base(h.ast.iter)
+                if lname is not None and lname not in fn.params and lname in all_defs(fn):
+                    apps = _list_feeds(fn, lname)
+                    if not apps:
+                        raise AnalysisError("%s: nothing is ever appended to %s" % (short(fn), lname))
+                    srcs = []
+                    for c in apps:
+                        x = c.args[0]
+                        if k is None:
+                            el = x
+                        elif isinstance(x, ast.Tuple) and len(x.elts) == len(tgt.elts) \
+                                and not any(isinstance(y, ast.Starred) for y in x.elts):
+                            el = x.elts[k]
+                        else:
+                            raise AnalysisError("%s: %s.append(%s) does not match the loop target" % (short(fn), lname, src(fn, x)))
+                        srcs.append((node_of(fn, c), el))
+                    hit = (h.id, srcs)
+        per.append(hit)
+    alts = [([], {})]
+    for e, hit in zip(exprs, per):
+        nxt = []
+        for (pairs, chosen) in alts:
+            if hit is None:
+                nxt.append((pairs + [(node, e)], chosen))
+                continue
+            hid, srcs = hit
+            if hid in chosen:
+                nxt.append((pairs + [srcs[chosen[hid]]], chosen))
+            else:
+                for i, s in enumerate(srcs):
+                    ch = dict(chosen)
+                    ch[hid] = i
+                    nxt.append((pairs + [s], ch))
+        alts = nxt
+    out = []
+    for (pairs, _c) in alts:
+        if depth > 0 and any(p[0] is not node for p in pairs):
+            # an element may itself have been carried through an earlier list
+            nodes_ = {id(p[0]) for p in pairs}
+            if len(nodes_) == 1:
+                for sub in carried_sources(fn, pairs[0][0], [p[1] for p in pairs], depth - 1):
+                    out.append(sub)
+                continue
+        out.append(pairs)
+    return out
+
+
 def every_iteration_passes(cfg, head, gate_node):
     """Paths head -iter-> ... -> head (or normal exit) that do not pass a node satisfying gate_node."""
     bad = []
@@ -447,22 +632,24 @@ def run(ctx: Context):
             fin = arg(cs.call, 2, "finalhome")
             if inc is None or fin is None:
                 raise AnalysisError("BucketWriter(...) call shape changed")
-            inc_e, fin_e = anorm.resolve(node, inc), anorm.resolve(node, fin)
-
-            def join_parts(e):
-                if isinstance(e, ast.Call) and call_name(e) == "os.path.join" and e.args:
-                    return [anorm.norm(node, x) for x in e.args]
-                return None
-            ip, fp = join_parts(inc_e), join_parts(fin_e)
             sp = first_positional_params(alloc)[0]
             sidir = norm_src("storage_index_to_dir(%s)" % sp)
-            r.require(ip is not None and ip[0] == "self.incomingdir" and len(ip) == 3 and ip[1] == sidir, alloc, cs.loc,
-                      "the in-progress share is created at %s, not under self.incomingdir/<si-dir> - readers could "
-                      "see it before close" % src(alloc, inc_e))
-            r.require(fp is not None and fp[0] == "self.sharedir" and len(fp) == 3 and fp[1] == sidir, alloc, cs.loc,
-                      "finalhome is %s, not self.sharedir/<si-dir>/<shnum>" % src(alloc, fin_e))
-            r.require(ip is not None and fp is not None and ip[1:] == fp[1:], alloc, cs.loc,
-                      "incoming and final paths name different shares (%s vs %s)" % (src(alloc, inc_e), src(alloc, fin_e)))
+            # the paths may have been computed in an earlier loop and carried here through a list of tuples
+            for ((inode, inc_x), (fnode, fin_x)) in carried_sources(alloc, node, [inc, fin]):
+                inc_e, fin_e = anorm.resolve(inode, inc_x), anorm.resolve(fnode, fin_x)
+
+                def join_parts(e, at):
+                    if isinstance(e, ast.Call) and call_name(e) == "os.path.join" and e.args:
+                        return [anorm.norm(at, x) for x in e.args]
+                    return None
+                ip, fp = join_parts(inc_e, inode), join_parts(fin_e, fnode)
+                r.require(ip is not None and ip[0] == "self.incomingdir" and len(ip) == 3 and ip[1] == sidir, alloc, cs.loc,
+                          "the in-progress share is created at %s, not under self.incomingdir/<si-dir> - readers could "
+                          "see it before close" % src(alloc, inc_e))
+                r.require(fp is not None and fp[0] == "self.sharedir" and len(fp) == 3 and fp[1] == sidir, alloc, cs.loc,
+                          "finalhome is %s, not self.sharedir/<si-dir>/<shnum>" % src(alloc, fin_e))
+                r.require(ip is not None and fp is not None and ip[1:] == fp[1:], alloc, cs.loc,
+                          "incoming and final paths name different shares (%s vs %s)" % (src(alloc, inc_e), src(alloc, fin_e)))
         if n_bw == 0:
             raise AnchorVanished("no BucketWriter construction found")
         # incomingdir is sharedir/'incoming'
@@ -1010,21 +1197,25 @@ def run(ctx: Context):
             if inc is None or fin is None:
                 raise AnalysisError("BucketWriter(...) call shape changed")
 
-            def unguarded(e):
-                wants = {"os.path.%s(%s)" % (fname, anorm.norm(node, e)) for fname in ("exists", "lexists", "isfile")}
-                return find_path_avoiding(acfg, lambda x, _n=node: x is _n, skip_exc_edges=True,
+            def unguarded(at, e):
+                wants = {"os.path.%s(%s)" % (fname, anorm.norm(at, e)) for fname in ("exists", "lexists", "isfile")}
+                return find_path_avoiding(acfg, lambda x, _n=at: x is _n, skip_exc_edges=True,
                                           gate_edge=lambda x, lab: (lambda f_: bool(f_) and f_[0] == "false" and f_[1] in wants)(
                                               anorm.edge_fact(x, lab)))
             r.count(len(acfg.nodes))
-            for (t, w) in unguarded(fin):
-                r.violation(alloc, cs.loc, "a new upload is started although the share may already exist at %s: closing it "
-                            "renames over the complete immutable share and changes the bytes readers get (path: %s)"
-                            % (src(alloc, fin), w.brief()), w)
-            if not sf_guard:
-                for (t, w) in unguarded(inc):
-                    r.violation(alloc, cs.loc, "a second upload of a share that is still in progress at %s is accepted and "
-                                "ShareFile(create=True) does not refuse an existing file: the first upload's bytes are "
-                                "truncated away" % src(alloc, inc), w)
+            # When the paths were computed (and tested) in an earlier loop and carried to this call through a list of
+            # tuples, the test has to guard the statement that puts them into the list: nothing else feeds the list
+            # (carried_sources fails closed otherwise) and nothing in between publishes a share (only close does).
+            for ((inode, inc_x), (fnode, fin_x)) in carried_sources(alloc, node, [inc, fin]):
+                for (t, w) in unguarded(fnode, fin_x):
+                    r.violation(alloc, cs.loc, "a new upload is started although the share may already exist at %s: closing it "
+                                "renames over the complete immutable share and changes the bytes readers get (path: %s)"
+                                % (src(alloc, fin_x), w.brief()), w)
+                if not sf_guard:
+                    for (t, w) in unguarded(inode, inc_x):
+                        r.violation(alloc, cs.loc, "a second upload of a share that is still in progress at %s is accepted and "
+                                    "ShareFile(create=True) does not refuse an existing file: the first upload's bytes are "
+                                    "truncated away" % src(alloc, inc_x), w)
         if n_bw == 0:
             raise AnchorVanished("allocate_buckets no longer constructs a BucketWriter")
 
